@@ -224,7 +224,11 @@ func traceSpec(sc *sims.Scenario, out *sims.Outcome, pos int) string {
 	return ""
 }
 
-func judge(r *core.Run, sc *sims.Scenario, out *sims.Outcome) {
+func judge(r *core.Run, sc *sims.Scenario, out *sims.Outcome) { judgeOpt(r, sc, out, false) }
+
+// judgeOpt: tableOnly skips the CRL side of the request-trace specification
+// (for calls that may be answered from a cache an earlier call filled).
+func judgeOpt(r *core.Run, sc *sims.Scenario, out *sims.Outcome, tableOnly bool) {
 	r.Eval(1)
 	if out.Stuck {
 		r.Inconclusive("a call did not return within the watchdog (C09 / C17 decide that): " + sc.Desc())
@@ -252,6 +256,27 @@ func judge(r *core.Run, sc *sims.Scenario, out *sims.Outcome) {
 			return
 		}
 		if i == sc.Len-1 {
+			continue
+		}
+		if tableOnly {
+			// the responders, at least, must have been asked when the certificate
+			// names any: a cache holds CRLs, not OCSP answers
+			asked := 0
+			for _, e := range out.Log {
+				if pos, typ, _, _, ok := sims.RouteOf(e.Route); ok && e.Kind == "request" && pos == i && typ == "o" {
+					asked++
+				}
+			}
+			httpO := 0
+			for _, k := range sc.Plans[i].Shape.OCSP {
+				if sims.IsHTTPKind(k) {
+					httpO++
+				}
+			}
+			if httpO > 0 && asked == 0 {
+				r.Violation(fmt.Sprintf("request-trace:%s:responders-not-asked", sc.Entry), fmt.Sprintf("certificate %d names %d responders, none was asked (second call behind a caching fetcher)", i, httpO), sc)
+				return
+			}
 			continue
 		}
 		have := ObservedRequests(sc, out, i)
@@ -408,7 +433,8 @@ func run(r *core.Run) int {
 		if a.Entry != "validate" {
 			a.CRLRoute, b.CRLRoute = "http", "http"
 		}
-		if a.Entry == "validate" && a.CRLRoute == "http" && i%4 == 1 {
+		cached := a.Entry == "validate" && a.CRLRoute == "http" && i%4 == 2
+		if cached {
 			// a real HTTPFetcher with a cache that the first call may fill
 			a.Cache, b.Cache = "healthy", "healthy"
 		}
@@ -424,6 +450,11 @@ func run(r *core.Run) int {
 			}
 			a.Plans[pos] = plan(pick(ocspAlpha, nO), pick(crlAlpha, nC))
 			b.Plans[pos] = plan(pick(ocspAlpha, nO), pick(crlAlpha, nC))
+			if cached {
+				// what the cache holds after the first call is what the publishers
+				// still serve: only the responders change their mind
+				b.Plans[pos].CRL = append([]string{}, a.Plans[pos].CRL...)
+			}
 		}
 		pairs = append(pairs, pair{a, b})
 	}
@@ -436,8 +467,11 @@ func run(r *core.Run) int {
 		before := len(env.Net.Log())
 		out2 := env.Run(context.Background())
 		out2.Log = out2.Log[before:]
-		judge(r, p.b, out2)
+		judgeOpt(r, p.b, out2, p.b.Cache != "")
 		r.Count("second-calls-on-the-same-validator", 1)
+		if p.a.Cache != "" {
+			r.Count("second-calls-behind-a-caching-fetcher", 1)
+		}
 		r.Nontrivial("history " + p.a.Desc() + " THEN " + p.b.Desc())
 	})
 	r.Parallel(len(jobs), func(i int) {
@@ -469,7 +503,8 @@ func run(r *core.Run) int {
 		core.Require{Counter: "method-CRL", Why: "method CRL never seen"},
 		core.Require{Counter: "method-OCSPFallbackCRL", Why: "fallback never seen"},
 		core.Require{Counter: "method-Unknown", Why: "NonRevokable never seen"},
-		core.Require{Counter: "second-calls-on-the-same-validator", Why: "no two-call history"})
+		core.Require{Counter: "second-calls-on-the-same-validator", Why: "no two-call history"},
+		core.Require{Counter: "second-calls-behind-a-caching-fetcher", Why: "no two-call history through a caching HTTPFetcher"})
 }
 
 func replay(r *core.Run, path string) int {
